@@ -4439,8 +4439,10 @@ EmitModVSib:
       if (ASMJIT_UNLIKELY(mod == 0xFF))
         goto InvalidAddress;
 
+      // [BP] has no displacement-less form (mod=00 rm=110 means [disp16]); test before merging the reg field.
+      bool is_bp_only = (mod == 0x06);
       mod += op_reg << 3;
-      if (rel_offset == 0 && mod != 0x06) {
+      if (rel_offset == 0 && !is_bp_only) {
         writer.emit8(mod);
       }
       else if (Support::is_int_n<8>(rel_offset)) {
